@@ -298,4 +298,11 @@ theorem sfAll_eq : ∀ (vs : List (Option α)), sfAllNonNull vs = specAllNonNull
     simp only [sfAllNonNull, specAllNonNull] at this ⊢
     simp [this]
 
+theorem flatMap_ext {l : List α} {f g : α → List β} (h : ∀ a, a ∈ l → f a = g a) : l.flatMap f = l.flatMap g := by
+  induction l with
+  | nil => rfl
+  | cons a r ih =>
+    simp only [List.flatMap_cons]
+    rw [h a (by simp), ih (fun b hb => h b (by simp [hb]))]
+
 end SFV.CwlOps
